@@ -49,3 +49,8 @@ openssl req -x509 -newkey rsa:2048 -nodes -keyout selfsigned_ca.key -out selfsig
   -addext "subjectAltName=$SAN_OK" -addext "basicConstraints=critical,CA:TRUE" 2>/dev/null
 # an impostor: presents the `good` certificate but holds another key (the harness's server signs the handshake with it)
 cp good.pem impostor.pem; cp wrongname.key impostor.key
+# a leaf without any subjectAltName (subject CN=other.test): valid for no name at all
+openssl req -newkey rsa:2048 -nodes -keyout nosan.key -out nosan.csr -subj "/CN=other.test" 2>/dev/null
+printf "basicConstraints=CA:FALSE\nkeyUsage=digitalSignature,keyEncipherment\nextendedKeyUsage=serverAuth\n" > nosan.ext
+openssl x509 -req -in nosan.csr -CA root.pem -CAkey root.key -CAcreateserial -out nosan.pem -days $days -extfile nosan.ext 2>/dev/null
+rm -f nosan.csr nosan.ext *.srl
